@@ -61,6 +61,11 @@ pub struct Chooser {
 }
 
 impl Chooser {
+    /// A chooser bound to no execution, for process-wide fixtures that never take a choice.
+    pub fn detached() -> Self {
+        Chooser::new(vec![], 0)
+    }
+
     fn new(prefix: Vec<u32>, bound: u32) -> Self {
         Chooser {
             st: Arc::new(Mutex::new(ChooserState {
